@@ -90,10 +90,10 @@ func (i ImportNames) TypeName(t types.Type) string {
 			return typ.Obj().Name()
 		}
 		if pkgName, ok := i[typ.Obj().Pkg().Path()]; ok && pkgName != "." {
-			return fmt.Sprintf("%v.%v", pkgName, typ.Obj().Name())
+			return fmt.Sprintf("%v.%v%v", pkgName, typ.Obj().Name(), i.typeArgs(typ))
 		}
 		// A type of the setup file's own package, or of a dot-imported one: no qualifier.
-		return typ.Obj().Name()
+		return typ.Obj().Name() + i.typeArgs(typ)
 	default:
 		// Qualify named types inside composite types (slices, maps, ...) the same way as above
 		// instead of with their import path.
@@ -104,6 +104,20 @@ func (i ImportNames) TypeName(t types.Type) string {
 			return ""
 		})
 	}
+}
+
+// typeArgs returns the bracketed type argument list of an instantiated generic type,
+// or an empty string for any other type.
+func (i ImportNames) typeArgs(typ *types.Named) string {
+	args := typ.TypeArgs()
+	if args.Len() == 0 {
+		return ""
+	}
+	names := make([]string, args.Len())
+	for n := range names {
+		names[n] = i.TypeName(args.At(n))
+	}
+	return "[" + strings.Join(names, ", ") + "]"
 }
 
 // IsExternal returns true if the given type is defined in a different package than
